@@ -309,7 +309,14 @@ func verifPoints(w http.ResponseWriter, r *http.Request) {
 	verifReply(w, map[string]any{"ok": true, "counts": verifhook.Counts()})
 }
 
+// verifWait waits for the compaction / merge tasks of a table store. MmsTables.Wait is only
+// safe while nothing else can start such tasks (the product itself calls it after
+// disabling them), so it is used only in VERIF_BG_OFF mode; with the background scheduler
+// on the request returns without waiting.
 func verifWait(t immutable.TablesStore) {
+	if os.Getenv("VERIF_BG_OFF") == "" {
+		return
+	}
 	if w, ok := t.(interface{ Wait() }); ok {
 		w.Wait()
 	}
